@@ -210,7 +210,7 @@ def extra_case(rnd):
     BYYEARDAY / BYWEEKNO together with BYMONTH / BYMONTHDAY / BYDAY, mixed ordinal and plain BYDAY, BYMONTH / BYDAY under MINUTELY / SECONDLY,
     sub-daily steps of more than a day"""
     kind = rnd.choice(['wly_pos', 'dly_pos', 'hly_pos', 'yly_yd_mon', 'yly_yd_md', 'yly_wk_dow_mon', 'yly_wk_pos', 'yly_dow_pos', 'mly_md_pos', 'yly_md_dow',
-                       'yly_yd_dow', 'mly_ord_plain', 'Mly_mon', 'Sly_dow', 'big_inter', 'yly_mon_dow_pos', 'yly_wk', 'yly_wk'])
+                       'yly_yd_dow', 'mly_ord_plain', 'Mly_mon', 'Sly_dow', 'big_inter', 'yly_mon_dow_pos', 'yly_wk', 'yly_wk', 'pos_beyond', 'pos_beyond'])
     y = rnd.choice(year_types() + [1999, 2000, 2024, 2037])
     m = rnd.randint(1, 12); d = rnd.randint(1, dim(y, m)); dd = D.date(y, m, d)
     tod = (rnd.randint(0, 23), rnd.choice([0, 15, 30, 59]), rnd.choice([0, 30, 59]))
@@ -260,6 +260,15 @@ def extra_case(rnd):
         mm = rnd.choice([1, 12]); days = [D.date(y, mm, k) for k in range(1, 32) if D.date(y, mm, k).weekday() <= 4]
         x = days[-1] if neg else days[1]
         r = blank('YEARLY', 1); r['mon'] = [mm]; r['dow'] = [[0, w] for w in range(1, 6)]; r['pos'] = [-1 if neg else 2]; ds = (x.year, x.month, x.day)
+    elif kind == 'pos_beyond':
+        # several BYSETPOS values beyond the number of candidates of most periods (a month has four or five of a weekday): they select
+        # nothing there
+        wd = dd.weekday()
+        xs = [D.date(y, m, k) for k in range(1, dim(y, m) + 1) if D.date(y, m, k).weekday() == wd]
+        x = xs[1]
+        r = blank('MONTHLY', rnd.choice([1, 1, 2])); r['dow'] = [[0, wd + 1]]; r['pos'] = rnd.choice([[2, 5, 6], [2, 5, 6, 7], [2, 6, 7], [-6, 2, 5, 6]]); ds = (x.year, x.month, x.day)
+        if rnd.random() < 0.3:
+            r = blank('YEARLY', 1); r['mon'] = [m]; r['dow'] = [[0, wd + 1]]; r['pos'] = rnd.choice([[2, 5, 6], [2, 6, 7, 8]])
     elif kind == 'mly_md_pos':
         r = blank('MONTHLY', rnd.choice([1, 1, 2])); r['md'] = [1, 15, -1]; r['pos'] = [2]; ds = (y, m, 15)
     elif kind == 'yly_md_dow':
